@@ -269,7 +269,32 @@ def _given(m, f, row, assume, assume_def):
             vals = [v for lo, hi in g["in"] for v in range(lo, hi + 1)]
             _assume_field(f, row, g["field"], vals, assume, assume_def)
         elif "call" in g:
+            if g.get("optional") and not any(i.op == "call" and i.callee == g["call"] for i in f.all_insts()):
+                continue
             for iid in _calls(f, row, g["call"]):
+                assume_def[iid] = _ivs(int(f.insts[iid].type[1:]), g["in"])
+        elif "calls_returning" in g:
+            # every call of a function whose declared (debug-info) return type is the named typedef, e.g. H3Error
+            tn = g["calls_returning"]
+            names = {x.name for x in m.defined() if x.d.get("ditypes", [""])[0] == tn}
+            ids = [i.id for i in f.all_insts() if i.op == "call" and i.callee in names]
+            if not ids:
+                raise AnalysisBroken("row %s: %s calls no function returning %s" % (row["id"], f.name, tn))
+            for iid in ids:
+                assume_def[iid] = _ivs(int(f.insts[iid].type[1:]), g["in"])
+        elif "local" in g:
+            # every plain load of a local variable that lives in memory (its address is handed to a callee that fills it)
+            allocas = {dv["v"][1] for dv in f.dbgvars if dv["name"] == g["local"] and dv["v"][0] == "i" and f.insts[dv["v"][1]].op == "alloca"}
+            allocas |= {i.id for i in f.all_insts() if i.op == "alloca" and i.name == g["local"]}
+            ids = []
+            for i in f.all_insts():
+                if i.op == "load" and i.type.startswith("i") and i.type[1:].isdigit():
+                    base, path = ir.field_path(m, f, i.ops[0])
+                    if base[0] == "i" and base[1] in allocas and not path:
+                        ids.append(i.id)
+            if not ids:
+                raise AnalysisBroken("row %s: no load of a local '%s' in %s" % (row["id"], g["local"], f.name))
+            for iid in ids:
                 assume_def[iid] = _ivs(int(f.insts[iid].type[1:]), g["in"])
 
 
@@ -404,6 +429,43 @@ def expand(m, f, row):
     if not runs:
         raise AnalysisBroken("row %s expands to no run" % row["id"])
     return runs
+
+
+def _undetermined_on_trail(f, trail, assumed_ids, attainable):
+    """conditions of the conditional branches along a block trail that are neither functions of assumed values and constants nor of calls to `attainable`
+    predicates on the function's arguments: list of descriptions (empty = the path is a definite counterexample)"""
+    out = []
+    for bi in trail:
+        t = f.blocks[bi].term
+        if t.op != "br" or len(t.ops) != 3:
+            if t.op == "switch":
+                out.append("a switch at %s" % t.where())
+            continue
+        todo, seen = [t.ops[0]], set()
+        while todo:
+            o = todo.pop()
+            if o[0] in ("c", "f", "b"):
+                continue
+            if o[0] == "a":
+                out.append("parameter '%s' (branch at %s)" % (f.args[o[1]]["name"], t.where()))
+                continue
+            if o[0] != "i":
+                out.append("a global or constant expression (branch at %s)" % t.where())
+                continue
+            if o[1] in seen or o[1] in assumed_ids:
+                continue
+            seen.add(o[1])
+            i = f.insts[o[1]]
+            if i.op == "call":
+                if i.callee in attainable and all(x[0] in ("a", "c") for x in i.ops):
+                    continue
+                out.append("%s() (branch at %s)" % (i.callee, t.where()))
+                continue
+            if i.op in ("load", "alloca"):
+                out.append("a value loaded from memory at %s" % i.where())
+                continue
+            todo.extend(i.ops)
+    return sorted(set(out))
 
 
 def _success_reachable(m, f, assume, assume_def, pairs, start, out_idx, must_idx):
@@ -661,7 +723,16 @@ def _check_row(ctx, get_module, row, rule, cfg):
                 continue
             if expect_zero:
                 if singleton(av) != 0:
-                    problems.append(("violation", "G1: with %s the function can return %s (must be 0) at %s" % (label, explore.fmt(av), where), t))
+                    kind_ = "violation"
+                    extra = ""
+                    if "attainable" in row:
+                        # the path is a definite counterexample only when every branch on it is decided by the assumptions or depends on nothing but
+                        # predicates listed as attainable both ways (applied to the function's own arguments)
+                        unk = _undetermined_on_trail(f, s.trail, set(assume_def), set(row["attainable"]))
+                        if unk:
+                            kind_ = "broken"
+                            extra = "; the path depends on %s, which the row does not know to be satisfiable for the inputs it speaks about" % ", ".join(unk[:3])
+                    problems.append((kind_, "G1: with %s the function can return %s (must be 0) at %s%s" % (label, explore.fmt(av), where, extra), t))
                 elif must_idx is not None and s.env.get(("flag", "wrote")) is None:
                     problems.append(("violation", "with %s the function returns success at %s without storing through '%s'" % (label, where, row["mustwrite"]), t))
                 continue
